@@ -134,6 +134,7 @@ type Frame struct {
 	IsDeferred bool // this frame is a deferred call executed by RunDefers/unwind of its parent
 	IsGoRoot   bool
 	Results    []Value
+	OnReturn   func(vals []Value) []Value
 }
 
 func (f *Frame) clone() *Frame {
@@ -195,6 +196,7 @@ type State struct {
 	Hook    MemHook
 	PanicOK bool // harness said a panic is acceptable from here on
 	Cover   map[string]bool // labels of verifReach points hit on this path
+	Known   map[int64]bool  // atoms (term ids) whose truth the path condition fixes
 	// results for the harness
 	Result []Value
 }
@@ -234,6 +236,10 @@ func (st *State) Fork() *State {
 		p := *st.Panic
 		n.Panic = &p
 	}
+	n.Known = make(map[int64]bool, len(st.Known)+8)
+	for k, v := range st.Known {
+		n.Known[k] = v
+	}
 	return &n
 }
 
@@ -261,6 +267,39 @@ func (st *State) Assume(c *smt.Term) {
 		return
 	}
 	st.PC = append(st.PC, c)
+	st.learn(c, true)
+}
+
+func (st *State) learn(c *smt.Term, val bool) {
+	if st.Known == nil {
+		st.Known = map[int64]bool{}
+	}
+	st.Known[c.ID] = val
+	switch {
+	case c.Op == "not":
+		st.learn(c.Args[0], !val)
+	case c.Op == "and" && val:
+		for _, a := range c.Args {
+			st.learn(a, true)
+		}
+	case c.Op == "or" && !val:
+		for _, a := range c.Args {
+			st.learn(a, false)
+		}
+	}
+}
+
+// KnownVal reports whether the path condition syntactically fixes c.
+func (st *State) KnownVal(c *smt.Term) (bool, bool) {
+	if v, ok := st.Known[c.ID]; ok {
+		return v, true
+	}
+	if c.Op == "not" {
+		if v, ok := st.Known[c.Args[0].ID]; ok {
+			return !v, true
+		}
+	}
+	return false, false
 }
 
 func (st *State) pos(p token.Pos) string {
